@@ -189,6 +189,7 @@ type c10seq struct {
 	now   time.Time
 	h     int64
 	esmOn bool // emergency shutdown of the auction's app is on
+	env   string // the env field of the begin line (static data of the seized position)
 }
 
 func (s *c10seq) acct(name string) sdk.AccAddress {
@@ -564,9 +565,10 @@ func c10start(t *testing.T, f *c10fix, tr *Trace, cfg c10cfg) *c10seq {
 	if lv.IsDebtCmst {
 		cm = "1"
 	}
-	tr.Line("dutch.begin", fmt.Sprintf("kind=%s;decC=%d;decD=%d;target=%s;fee=%s;bonus0=%s;coll0=%s;keeper=%s;incentive=%s;minUsd=%d;T=%d;premium=%s;discount=%s;cmst=%s;twaC=%d",
+	s.env = fmt.Sprintf("kind=%s;decC=%d;decD=%d;target=%s;fee=%s;bonus0=%s;coll0=%s;keeper=%s;incentive=%s;minUsd=%d;T=%d;premium=%s;discount=%s;cmst=%s;twaC=%d",
 		lv.InitiatorType, s.p.coll.dec, s.p.debt.dec, lv.TargetDebt.Amount, lv.FeeToBeCollected, lv.BonusToBeGiven, lv.CollateralToken.Amount, isK, c10raw(c10dec(cfg.incentive)),
-		cfg.minUsd, cfg.T, c10raw(c10dec(cfg.premium)), c10raw(c10dec(cfg.discount)), cm, cfg.dropTo)+lendExtra, s.state())
+		cfg.minUsd, cfg.T, c10raw(c10dec(cfg.premium)), c10raw(c10dec(cfg.discount)), cm, cfg.dropTo) + lendExtra
+	tr.Line("dutch.begin", s.env, s.state())
 	tr.Count("begin:" + cfg.kind)
 	return s
 }
